@@ -8,7 +8,8 @@ Operations (plain tuples, JSON-able):
   ("Do", i, "Demote") / "MarkComplete" / "MarkCanceled" / "Serialize" / "SerializeJobs" / "ReloadJobs"
   ("Do", i, "Update", k, b, [ids])     update_job_status([], [], k canceled jobs, set(), ids, b)
   ("Do", i, "CompleteHpc", id)         complete_hpc_job_id(str(id))
-  ("Prep", i, v)                       prepare_for_resubmission(num_jobs - v job names, {})
+  ("Prep", i, n)                       prepare_for_resubmission(first n job names, {}); all jobs of this driver stay
+                                       NOT_SUBMITTED, so the recounted submitted_jobs is 0 (model: DPrep i 0)
   ("Unwedge",)                         remove the lock marker left by an exception under the lock
 Hosts are small ints (host name "host<N>"); handle i = i-th object returned by create/deserialize.
 """
@@ -173,10 +174,9 @@ class World:
                 self.hosts.append(host)
                 return "RLoaded %d %s" % (len(self.handles) - 1, "true" if promoted else "false")
             if kind == "Prep":
-                _, i, v = op
+                _, i, n = op
                 if i >= len(self.handles):
                     return "RNoHandle"
-                n = NUM_JOBS - v
                 assert 0 <= n <= NUM_JOBS
                 self.handles[i].prepare_for_resubmission({"j%d" % k for k in range(n)}, {})
                 return "ROk"
@@ -283,7 +283,7 @@ def t_op(op):
     if k == "Load":
         return "DOp (Load %d%%N %s %s)" % (op[1], t_bool(op[2]), t_bool(op[3]))
     if k == "Prep":
-        return "DPrep %d%%nat %d%%N" % (op[1], op[2])
+        return "DPrep %d%%nat 0%%N" % op[1]
     i, name = op[1], op[2]
     if name == "Update":
         h = "(HUpdate %d%%N %d%%N [%s])" % (op[3], op[4], "; ".join("%d%%N" % x for x in op[5]))
